@@ -217,6 +217,7 @@ WORDS = ["alpha", "beta", "gamma", "delta 4", "k = v", "end.", "bend", "x1", "xx
 NAMES = ["A", "B", "color", "Toggles", "cc", "menu"]
 
 
+ENV_NAMES = ("N", "V", "NOSUCH")
 ENV0 = {"home": [], "vname": [], "vval": []}          # HOME and one more variable as the parsed text sees them ([] = unset)
 
 
@@ -407,8 +408,8 @@ def tree_script(sid, cfg):
     env = cfg.get("env") or ENV0
     out = ["S %d" % sid, "prog %s = ? ?" % x_c09.blist(cfg["prog"]),
            "setenv %s %s = ? ?" % (x_c09.blist(b"HOME"), x_c09.blist(env["home"]) if env["home"] else "-")]
-    if env["vname"]:
-        out.append("setenv %s %s = ? ?" % (x_c09.blist(env["vname"]), x_c09.blist(env["vval"])))
+    for vn in ENV_NAMES:          # the environment is process-wide: what this execution does not define must be unset
+        out.append("setenv %s %s = ? ?" % (x_c09.blist(vn.encode()), x_c09.blist(env["vval"]) if vn.encode() == bytes(env["vname"]) else "-"))
     out.append("init = ? ?")
     for f, (k, lines) in enumerate(zip(cfg["kinds"], cfg["content"]), 1):
         data = x_c09.file_bytes({"kind": k, "lines": lines, "magic": cfg["magic"][f - 1]})
@@ -426,7 +427,10 @@ def trace_validation(ctx, exe):
     from vlib import trace
     rnd = random.Random(ctx.seed)
     n = 300 if ctx.tier == "quick" else 3000
-    fam = value_and_size_families(ctx.tier) + name_and_setting_families(ctx.tier) + quoting_families(ctx.tier)
+    fams = [("value/size", value_and_size_families(ctx.tier)), ("names/settings", name_and_setting_families(ctx.tier)),
+            ("quoting/empty", quoting_families(ctx.tier))]
+    fam = [c for _, cs in fams for c in cs]
+    famname = [nm for nm, cs in fams for _ in cs]
     cfgs = fam + [gen_tree(rnd, big=(k % 4 == 0)) for k in range(n)]
     ctx.cov["value_and_size_family_executions"] = len(fam)
     scripts = [tree_script(k + 1, c) for k, c in enumerate(cfgs)]
@@ -445,7 +449,7 @@ def trace_validation(ctx, exe):
         if last.get(sid) != last2.get(sid):
             ndiff += 1
             a, b = last.get(sid), last2.get(sid)
-            ctx.report("trace-run parse [fam=%s] result-depends-on-address-reuse" % ("value/size/name" if sid <= len(fam) else "random"),
+            ctx.report("trace-run parse [fam=%s] result-depends-on-address-reuse" % (famname[sid - 1] if sid <= len(fam) else "random"),
                        "the same script gives another result when freed blocks are reused at once: %s vs %s" % (str(a)[:300], str(b)[:300]),
                        {"harness_args": [], "script_text": texts[sid - 1], "context_script_text": (texts[sid - 5] if sid > 4 else "") + texts[sid - 1],
                         "asan_options_extra": "quarantine_size_mb=0:thread_local_quarantine_size_kb=0"})
@@ -475,7 +479,7 @@ def trace_validation(ctx, exe):
         ncalls += sum(len(e["post"]["calls"]) for e in evs[:pos])
         if not ok:
             sid, ev = part[pos]
-            ctx.report("trace-rejected parse [fam=%s null=%s]" % ("value/size" if sid <= len(fam) else "random", ev["cfg"]["nullmode"]),
+            ctx.report("trace-rejected parse [fam=%s null=%s]" % (famname[sid - 1] if sid <= len(fam) else "random", ev["cfg"]["nullmode"]),
                        "TLC rejects the recorded execution %d (script %d): observed ret=%s calls=%s snap=%s" % (
                            c0 + pos, sid, ev["ret"], json.dumps(ev["post"]["calls"])[:400], ev["post"]["snap"]),
                        {"harness_args": [], "script_text": texts[sid - 1], "event": ev, "event_index": c0 + pos, "trace": path})
